@@ -197,6 +197,29 @@ def probe_portfolio(spec):
                                 mapping=dump_mapping(slp.mapping), out=tables(pf3, slp, r3))
         except Exception as e:
             o['slp'] = {'solve': 'crash', 'error': repr(e)[:300]}
+    if opts.get('rename_in_place') and o.get('solve') == 'optimal':
+        # the study is relabelled IN PLACE (Node.name / asset.name of the existing objects) and a new Portfolio is built from the same assets
+        try:
+            seen_nodes = {}
+            def walk(assets):
+                for a_ in assets:
+                    yield a_
+                    if hasattr(a_, 'portfolio'):
+                        yield from walk(a_.portfolio.assets)
+                    if hasattr(a_, 'base_asset'):
+                        yield from walk([a_.base_asset])
+            for a_ in walk(portf.assets):
+                for n_ in (a_.nodes if isinstance(a_.nodes, (list, tuple)) else [a_.nodes]):
+                    seen_nodes[id(n_)] = n_
+            for n_ in seen_nodes.values():
+                n_.name = 'renamed_' + n_.name + '_x'
+            pf5 = Portfolio(list(portf.assets))
+            op5 = pf5.setup_optim_problem(mk_prices(spec), mk_grid(spec['grid']))
+            r5 = op5.optimize()
+            o['renamed_in_place'] = {'solve': r5 if isinstance(r5, str) else 'optimal', 'value': None if isinstance(r5, str) else float(r5.value),
+                                     'nodes': list(pf5.nodes.keys())}
+        except Exception as e:
+            o['renamed_in_place'] = {'solve': 'crash', 'error': repr(e)[:300]}
     if opts.get('inner_standalone'):
         # the portfolio wrapped by a structured asset is an ordinary Portfolio object: optimised on its own AFTER it was used inside
         # the structure it must balance all of its nodes (also those that are external nodes of the structure)
